@@ -274,12 +274,17 @@ foreignKeyClause:
 	}
 
 constraintName:
-	{ } |
+	{
+		$$ = ""
+	} |
 	CONSTRAINT identifier {
+		$$ = $2
 	}
 
 tableConstraintList:
-	{ } |
+	{
+		$$ = nil
+	} |
 	',' constraintName tableConstraint {
 		$$ = []TableConstraint{$3}
 	} |
@@ -289,7 +294,9 @@ tableConstraintList:
 
 
 autoincrement:
-	{ } |
+	{
+		$$ = false
+	} |
 	AUTOINCREMENT {
 		$$ = true
 	}
@@ -325,7 +332,9 @@ typeName:
 	}
 
 collate:
-	{ } |
+	{
+		$$ = ""
+	} |
 	COLLATE literal {
 		$$ = $2
 	}
@@ -414,7 +423,9 @@ trigger:
 	}
 
 triggerList:
-	{ } |
+	{
+		$$ = nil
+	} |
 	triggerList trigger {
 		$$ = append($1, $2)
 	}
@@ -436,7 +447,9 @@ initiallyDeferred:
 	}
 
 where:
-	{ } |
+	{
+		$$ = nil
+	} |
 	WHERE expr {
 		$$ = $2
 	}
